@@ -120,7 +120,8 @@ impl UtpHeader {
 
                     #[allow(unused)]
                     {
-                        next_ext_pos = offset + 1;
+                        // The "next extension" byte of this extension is its first byte.
+                        next_ext_pos = offset;
                     }
                     offset += 2 + payload.len();
                 }
